@@ -12,8 +12,8 @@ The model follows the code that exists, including its quirks:
   initialised destination, `rdResize` for `QByteArray::resize`d destinations, whose not-overwritten bytes are
   *indeterminate* in C++ and modelled as the old content / zero; since /repo commit df53ac0 the loop rejects an
   attribute whose value does not lie inside the body, so no accepted packet gets there: `decode_accepted_fits`).
-* the decode loop accepts a message without MESSAGE-INTEGRITY under a key, skips everything but FINGERPRINT after
-  MESSAGE-INTEGRITY, and returns at FINGERPRINT without looking at what follows.
+* the decode loop skips everything but FINGERPRINT after MESSAGE-INTEGRITY and stops at FINGERPRINT without looking at what
+  follows; under a key a packet without MESSAGE-INTEGRITY is accepted only if its class is Error or Indication (80bab8b).
 * `QString::fromUtf8(data, size)` of Qt 5 drops a leading BOM and replaces malformed sequences (`qtStr`; since /repo
   commit bdc4d1e an embedded NUL is kept); string attributes are held as the UTF-8 bytes of the QString.
 
@@ -446,8 +446,22 @@ def decodeFrom (H : Bytes → Bytes) (m0 : Msg) (buf key : Bytes) : Option Decod
 /-- decode into a default-constructed message, with the trace -/
 def decodeX (H : Bytes → Bytes) (buf key : Bytes) : Option Decoded := decodeFrom H Msg.fresh buf key
 
-/-- `QXmppStunMessage().decode(buffer, key)`: `none` = `false`, otherwise the resulting message -/
-def decode (H : Bytes → Bytes) (buf key : Bytes) : Option Msg := (decodeX H buf key).map (·.msg)
+/-- the header check and the attribute loop alone: `decode` as it was before /repo commit 80bab8b, which accepted a packet
+without MESSAGE-INTEGRITY under a key whatever its class -/
+def decodeLoose (H : Bytes → Bytes) (buf key : Bytes) : Option Msg := (decodeX H buf key).map (·.msg)
+
+/-- `messageClass()` is Error or Indication: the classes that may legitimately come without MESSAGE-INTEGRITY although
+credentials are in use (RFC 5389 §10.1.2/§10.2.2 error responses; RFC 5766 Data indications) -/
+def exemptClass (ty : Nat) : Bool :=
+  ty &&& Stun.classMask = 0x110 || ty &&& Stun.classMask = 0x010
+
+/-- `QXmppStunMessage().decode(buffer, key)`: `none` = `false`, otherwise the resulting message.  After the loop (or the
+early return at FINGERPRINT): when a key is given and no MESSAGE-INTEGRITY was met, the packet is rejected unless its
+class is Error or Indication (/repo commit 80bab8b).  `(rdU16 buf).1` is the type field of the packet (= `m_type`). -/
+def decode (H : Bytes → Bytes) (buf key : Bytes) : Option Msg :=
+  match decodeX H buf key with
+  | some d => if key = [] ∨ d.miAt.isSome ∨ exemptClass (rdU16 buf).1 then some d.msg else none
+  | none => none
 
 /-! ## What the integrity theorems talk about (positions inside a packet) -/
 
@@ -466,10 +480,9 @@ def fpValueAt (buf : Bytes) (off : Nat) : Nat := (rdU32 (buf.drop (Stun.headerSi
 def fpInputAt (buf : Bytes) (off : Nat) : Bytes := setLen (buf.take (Stun.headerSize + off)) (off + Stun.fpAdjust)
 
 /-- **Authenticated decode**: `decode` succeeded *and* the decoder met (hence verified) a MESSAGE-INTEGRITY attribute.
-`QXmppStunMessage::decode` alone does not tell its caller whether that happened (it accepts a packet without the
-attribute under a key); this is the acceptance condition of a caller that checks for the attribute with the same walk,
-as `QXmppIceComponent::handleDatagram` does since /repo commit f41aa68 (`hasMessageIntegrity(buffer)` ∧ `decode`), and of
-`decode` itself once fixes/C14-bitflip-accepted.diff is applied (for messages that are not error responses). -/
+`QXmppStunMessage::decode` does not tell its caller whether that happened (for Error and Indication packets it accepts a
+packet without the attribute under a key); this is the acceptance condition of a caller that checks for the attribute with
+the same walk, as `QXmppIceComponent::handleDatagram` does since /repo commit f41aa68 (`hasMessageIntegrity(buffer)` ∧ `decode`). -/
 def decodeAuth (H : Bytes → Bytes) (buf key : Bytes) : Option Msg :=
   match decodeX H buf key with
   | some d => if d.miAt.isSome then some d.msg else none
@@ -609,8 +622,8 @@ def exampleMsg : Msg :=
     realm := some [101, 120, 97, 109, 112, 108, 101, 46, 111, 114, 103]  /- "example.org" -/, username := some [97, 108, 105, 99, 101, 58, 98, 195, 182, 98]  /- "alice:böb" -/,
     iceControlling := [8, 7, 6, 5, 4, 3, 2, 1] }
 
-/-- a Binding request with an empty USERNAME -/
-def bitflipMsg : Msg := { type := 1, username := some [] }
+/-- a Binding indication with an empty USERNAME -/
+def bitflipMsg : Msg := { type := 0x0011, username := some [] }
 
 /-- a message with nothing but a DATA attribute (`setData d`) -/
 def dataOnlyMsg (d : Bytes) : Msg := { data := some d }
